@@ -405,7 +405,8 @@ class Parser:
 
         if dest is OpCode.PUSH:
             code_gen.push(value)
-        elif value is not dest:
+        elif move_inst is OpCode.MOVEQ or value is not dest:
+            # Only a variable or register moved onto itself needs no code.
             code_gen.add_instruction(move_inst, value, dest)
 
         return self.next_token()
